@@ -170,9 +170,12 @@ TimedProbe ==
   /\ UNCHANGED <<hist, actEnv, nonActEnv, cwd, timeout, syms>>
 
 \* the action to check: sees the act set, and directory / timeout / symbols as of the end of [setup]
+\* ... preceded by the program that produces its stdin (stdin = -stdout-from PROGRAM, the last instruction of [setup]):
+\* named in [setup], started for the act phase - a process like every other: it sees the NON-act set, as of then
 Act ==
   /\ pi = 2 /\ Same
-  /\ probes' = Append(probes, Rec(<<"act", 0>>, "atc", "act", actEnv, FALSE, FALSE))
+  /\ probes' = Append(Append(probes, Rec(<<"stdin", 0>>, "stdinsrc", "nonact", nonActEnv, FALSE, FALSE)),
+                      Rec(<<"act", 0>>, "atc", "act", actEnv, FALSE, FALSE))
   /\ pi' = 3 /\ cnt' = 0 /\ due' = TRUE
   /\ UNCHANGED <<hist, nprobe, actEnv, nonActEnv, cwd, timeout, syms, timedUsed, killedIn>>
 
